@@ -29,7 +29,7 @@ NSMAP = {'p': X.NS}
 
 
 def min_version(expr):
-    if any(k in expr for k in ('map', 'array', '[ ')):
+    if any(k in expr for k in ('map', 'array', '[ ')) or expr in X.FN_EXPRS:
         return '3.1'
     if any(k in expr for k in (' ! ', 'let $', 'function(', 'path(', 'head(', 'tail(', 'innermost', 'outermost',
                                'has-children', 'serialize', 'generate-id', 'sort(', 'parse-xml', 'for-each',
@@ -48,8 +48,10 @@ def gen_expr(rng):
         e = rng.choice(X.SCALARS)
     elif x < 0.5:
         e = rng.choice(X.XP2)
-    elif x < 0.62:
+    elif x < 0.58:
         e = rng.choice(X.XP3)
+    elif x < 0.66:
+        e = rng.choice(X.FN_EXPRS)
     elif x < 0.9:
         e = rng.choice(X.VAR_EXPRS)
     else:
@@ -157,8 +159,11 @@ def parser_class(v):
 def index_maps(docs):
     maps = {}
     for di, d in enumerate(docs):
-        for idx, e in enumerate(d['base'].iter()):
-            maps[id(e)] = (di, idx)
+        if not hasattr(d['base'], 'getroottree'):
+            # ElementTree elements live as long as the tree; lxml proxies are temporary objects whose
+            # id() can be reused, so lxml nodes are located by root identity + path instead
+            for idx, e in enumerate(d['base'].iter()):
+                maps[id(e)] = (di, idx)
         maps[id(d['root'])] = (di, 'root')
         maps.setdefault(id(d['base']), (di, 0))
     return maps
@@ -187,10 +192,27 @@ def canon_res(res, maps):
             return ['doc', loc[0] if loc else -1]
         if isinstance(x, tuple):
             return ['tuple', [one(y) for y in x]]
+        if type(x).__name__ in ('_InlineFunction', 'XPathFunction') or (
+                hasattr(x, 'arity') and hasattr(x, 'label') and not hasattr(x, 'items')):
+            return call_function_item(x, maps)
         return canon(x)
     if isinstance(res, list):
         return [one(x) for x in res]
     return one(res)
+
+
+def call_function_item(f, maps):
+    """A function item is observed by calling it (from Python, on a fresh context) with fixed arguments."""
+    import elementpath
+    try:
+        n = f.arity
+        args = [3, 4, 5][:n] if isinstance(n, int) and n <= 3 else None
+        if args is None:
+            return ['function', n]
+        got = f(*args, context=elementpath.XPathContext(None, item=1))
+        return ['function', n, 'called', canon_res(got, maps)]
+    except Exception as e:
+        return ['function', 'call-raised', canon_exc(e)]
 
 
 def tree_snap(e):
@@ -293,6 +315,7 @@ def run_case(case, world):
     refs = {}
     shape = []
     frag_false_on = set()
+    kept = []           # (function item, its canonical form when first observed, description)
 
     def violate(cls, signature, detail, features=()):
         violations.append({'cls': cls, 'signature': signature, 'detail': detail, 'features': sorted(set(features))})
@@ -404,6 +427,10 @@ def run_case(case, world):
                 stats['failing_evaluations'] += 1
             world.event(('result', idx, outcome))
             shape.append('select:' + op.get('via', ''))
+            if outcome[0] == 'ok' and len(kept) < 6:
+                for x in items:
+                    if hasattr(x, 'arity') and hasattr(x, 'label') and not hasattr(x, 'items') and len(kept) < 6:
+                        kept.append((x, call_function_item(x, maps), sel['expr']))
             if ref[0] == 'ref-failed':
                 world.probe('clean-room-unavailable')
             elif outcome != ref:
@@ -489,6 +516,15 @@ def run_case(case, world):
                 shape.append('drop')
         after = snapshot()
         compare_snap(before, after, kind, feats)
+        # values are immutable: a function item returned by an earlier evaluation still behaves as it did
+        for fobj, first, desc in kept:
+            now_ = call_function_item(fobj, maps)
+            if now_ != first:
+                violate('EARLIER_RESULT_CHANGED', 'earlier-function-item-changed:%s' % kind,
+                        'a function item returned by %s gave %r when first called and gives %r after operation %d (%s)' % (
+                            desc, first, now_, idx, kind), feats + ['function-item'])
+                kept[:] = [(a, (call_function_item(a, maps) if a is fobj else b), c) for a, b, c in kept]
+                break
     nontrivial = []
     if stats['evaluations'] + stats['gen_steps'] >= 3:
         nontrivial = [hashlib.sha256(('|'.join(shape) + repr(case['selectors'])).encode()).hexdigest()[:16]]
